@@ -399,6 +399,35 @@ def check_dispatch(ctx):
             child = Element.from_tag("text:span")
             Element.append(el, child)
             expect(child.parent, cls, "parent", qn)
+    # wrappers whose tag was rewritten (public `tag` setter; the library does it for reference marks, covered cells,
+    # default styles, list level styles): every path that produces a *new* wrapper dispatches on the current tag
+    with ctx.guard(("C12", "dispatch", "retag-exception"), case):
+        n = len(items)
+        for i, (tag, cls) in enumerate(items):
+            for step in (1, 7, 23, 41):
+                tag2, cls2 = items[(i + step) % n]
+                qn, qn2 = qname_of(tag), qname_of(tag2)
+                el = Element.from_tag(qn)
+                holder = Element.from_tag("text:section")
+                Element.append(holder, el)
+                el.tag = qn2
+                ctx.ev()
+                path = "retagged"
+                expect(el.clone, cls2, f"clone/{path}", qn2)
+                expect(holder.children[0], cls2, f"children/{path}", qn2)
+                expect(holder.clone.children[0], cls2, f"clone-then-children/{path}", qn2)
+                expect(Element.from_tag(el.serialize()), cls2, f"from_tag(serialize)/{path}", qn2)
+                expect(holder.get_element(qn2), cls2, f"get_element/{path}", qn2)
+        from odfdo import Paragraph
+        from odfdo.reference import ReferenceMark, ReferenceMarkStart
+
+        para = Paragraph("some text to mark")
+        mark = ReferenceMark("m1")
+        para.append(mark)
+        para.set_reference_mark_end(mark, position=4)
+        expect(mark.clone, ReferenceMarkStart, "clone/set_reference_mark_end", "text:reference-mark-start")
+        expect(para.get_element("descendant::text:reference-mark-start"), ReferenceMarkStart, "get_element/set_reference_mark_end", "text:reference-mark-start")
+        expect(para.clone.get_element("descendant::text:reference-mark-start"), ReferenceMarkStart, "clone-then-get_element/set_reference_mark_end", "text:reference-mark-start")
     ctx.nontrivial(("dispatch", len(items)))
 
 
